@@ -38,6 +38,10 @@ pub struct RecState {
     pub waiting: std::collections::HashSet<ThreadId>,
     pub waits: u64,
     pub acquisitions: u64,
+    /// lock a thread has asked for and not obtained yet
+    pub requesting: HashMap<ThreadId, u8>,
+    /// counts every event (progress indicator)
+    pub events: u64,
 }
 
 #[derive(Default)]
@@ -54,6 +58,18 @@ impl Recorder {
         let e: Vec<(u8, u8)> = st.edges.iter().copied().collect();
         st.edges.clear();
         e
+    }
+    pub fn events(&self) -> u64 {
+        self.0.lock().unwrap_or_else(|e| e.into_inner()).events
+    }
+    pub fn is_waiting(&self, t: ThreadId) -> bool {
+        self.0.lock().unwrap_or_else(|e| e.into_inner()).waiting.contains(&t)
+    }
+    pub fn requested_by(&self, t: ThreadId) -> Option<u8> {
+        self.0.lock().unwrap_or_else(|e| e.into_inner()).requesting.get(&t).copied()
+    }
+    pub fn held_by(&self, t: ThreadId) -> Vec<u8> {
+        self.0.lock().unwrap_or_else(|e| e.into_inner()).held.get(&t).cloned().unwrap_or_default()
     }
     pub fn anyone_waiting(&self) -> bool {
         !self.0.lock().unwrap_or_else(|e| e.into_inner()).waiting.is_empty()
@@ -75,10 +91,14 @@ impl Observer for Recorder {
             st.edges.insert((h, id));
         }
         st.acquisitions += 1;
+        st.events += 1;
+        st.requesting.insert(tid, id);
     }
     fn acquired(&self, lock: &'static str) {
         let id = lock_id(lock);
         let mut st = self.0.lock().unwrap_or_else(|e| e.into_inner());
+        st.events += 1;
+        st.requesting.remove(&std::thread::current().id());
         st.held.entry(std::thread::current().id()).or_default().push(id);
     }
     fn released(&self, lock: &'static str) {
@@ -94,11 +114,13 @@ impl Observer for Recorder {
         let mut st = self.0.lock().unwrap_or_else(|e| e.into_inner());
         st.waiting.insert(std::thread::current().id());
         st.waits += 1;
+        st.events += 1;
         false
     }
     fn cv_wake(&self, _lock: &'static str) {
         let mut st = self.0.lock().unwrap_or_else(|e| e.into_inner());
         st.waiting.remove(&std::thread::current().id());
+        st.events += 1;
     }
     fn cv_notify(&self) {}
 }
